@@ -37,6 +37,8 @@ CLAIMS = {
          "Partial: every datagram size decision in poll_transmit / PacketBuilder (padding, loss-probe clamp, GSO) is outside (DESIGN §4 C13)."),
  "C14": ("Token validation kernels: for a genuine token presented from a symbolic address at a symbolic time, 'validated' implies address (and port for Retry) equality, lifetime and (NEW_TOKEN) log acceptance; constant-time token comparison = equality.",
          "Assumes AEAD authenticity (stub accepts exactly what it sealed); BloomTokenLog, TokenMemoryCache, Retry integrity tag, CID echo check are outside (DESIGN §4 C14)."),
+ "C15": ("Two kernels of migration safety: a datagram from an address other than the established one is ignored (nothing credited, counted or processed) unless this is a server whose configuration permits migration - decided for every outcome of the address comparison and of remote_may_migrate; and a path created for a migrated peer starts unvalidated with zeroed amplification counters and nothing in flight, whatever the previous path's state.",
+         "Narrow: path validation (PATH_CHALLENGE/RESPONSE), returning to the previous path within three PTOs, the migration trigger in process_payload are Connection code with loops and are outside the claim."),
  "C16": ("DatagramState kernels with <= 2 queued datagrams: oldest dropped first, window never exceeded, send-buffer accounting consistent, write emits only what fits.",
          "Partial: Datagrams::{send,max_size} take a Connection; at-most-once under packet duplication is C01.a + handle_packet (DESIGN §4 C16)."),
  "C19": ("Control-message encoder/decoder stay within their buffers and round-trip (level, type, value) for every option subset prepare_msg uses; ECN/stride decoding of symbolic control blocks.",
@@ -45,7 +47,6 @@ CLAIMS = {
 
 NOT_APPLICABLE = {
  "C02": "Liveness under fairness over two endpoints, a lossy network and a driver: bounded model checking gives no liveness and Connection::{poll_transmit,handle_timeout} cannot be encoded (Connection::new alone exceeds 25 min of symbolic execution; hashbrown).",
- "C15": "Entirely Connection::{handle_event,process_payload,migrate,handle_timeout(PathValidation)} over PathData and timers; no kernel short of Connection carries a sentence of the property and Connection cannot be encoded.",
  "C17": "0-RTT acceptance/rejection rollback is Connection + StreamsState::zero_rtt_rejected over the stream hash maps (hashbrown insert/remove does not finish in CBMC).",
  "C18": "A statement about task interleavings, wakers and tokio; Kani/CBMC do not model concurrency and the async layer cannot be encoded.",
  "C20": "A relation between whole runs of Connection/Endpoint (determinism, time-translation); the runs cannot be executed symbolically. TimerTable facts are checked under C08.",
